@@ -2,7 +2,7 @@
 //
 // Fault enumeration. One run = one tape-drawn origin configuration and script
 // (chunked uploads committed through the real handlers incl. persist flag and
-// write-back registration, refreshes from an honest backend with the memory
+// write-back registration, refreshes from a backend (honest, or in a third of the runs delivering wrong bytes for one blob) with the memory
 // write-through cache off or on, metainfo overwrites, occasional deletes). The
 // script is executed once to count its M mutating disk operations (syscall
 // granularity), then once more for EVERY k in 1..M on a fresh directory with
@@ -56,6 +56,10 @@ func short(hex string) string {
 // honest backend: holds every blob it was given, never lies.
 type honestBackend struct {
 	blobs map[string]*blob
+	// lie: blobs for which Download delivers bytes of the right length that do
+	// not hash to the name (only the backend of the script phase, and only in
+	// the workload variant that has one; the backend after restart is honest)
+	lie map[string]bool
 }
 
 func (c *honestBackend) Stat(namespace, name string) (*core.BlobInfo, error) {
@@ -71,12 +75,17 @@ func (c *honestBackend) Download(namespace, name string, dst io.Writer) error {
 	if b == nil {
 		return backenderrors.ErrBlobNotFound
 	}
-	half := len(b.data) / 2
-	if _, err := dst.Write(b.data[:half]); err != nil {
+	data := b.data
+	if c.lie[name] && len(data) > 0 {
+		data = append([]byte(nil), data...)
+		data[0] ^= 0xff
+	}
+	half := len(data) / 2
+	if _, err := dst.Write(data[:half]); err != nil {
 		return err
 	}
 	simrt.Yield()
-	_, err := dst.Write(b.data[half:])
+	_, err := dst.Write(data[half:])
 	return err
 }
 
@@ -370,6 +379,11 @@ func body(s *simrt.Sim, tier string) {
 		}
 	}
 	w.backend = &honestBackend{blobs: map[string]*blob{}}
+	if v := s.Tape.Variant; v%3 == 1 && len(w.blobs) > 0 {
+		// the backend delivers wrong bytes for one blob while the script runs
+		w.backend.lie = map[string]bool{w.blobs[int(v/3)%len(w.blobs)].hex: true}
+		s.Probe("backend_delivers_wrong_bytes")
+	}
 	w.full = &honestBackend{blobs: map[string]*blob{}}
 	for _, b := range w.blobs {
 		w.full.blobs[b.hex] = b
